@@ -8,7 +8,9 @@
 (* 1. The GRAMMAR of the configuration space: for every kind (filter kinds, the Pipeline,          *)
 (*    GlobalFilter, HTTPServer and MQTTProxy objects, both resilience kinds) the list of its       *)
 (*    fields, each ranging over a small set of *value classes* (absent "-", zero, boundary,        *)
-(*    typical, schema-valid-but-odd such as YAML null elements, cross references that hit / miss). *)
+(*    typical, schema-valid-but-odd such as YAML null elements, cross references that hit / miss,  *)
+(*    valid values in another letter case, and - field "pad" - valid values of the pkg/v formats   *)
+(*    with leading / trailing white space).                                                        *)
 (*    Grammar(k) is the set of records [field -> class]; the first class of every field is the     *)
 (*    field's *base* class and Base(k) is expected to be a working configuration.  Dev(k, c) counts *)
 (*    the fields that deviate from the base; the generator (ConfigSpace_Gen) enumerates            *)
